@@ -87,6 +87,9 @@ var Log []string
 
 func Reset() { Log = []string{} }
 
+// Failure: the error a failing operation returns
+func Failure(msg string) error { return fmt.Errorf("%s", msg) }
+
 func Fmt(v any) string {
 	rv := reflect.ValueOf(v)
 	if !rv.IsValid() {
